@@ -398,20 +398,20 @@ class CachedFcn(UserFcn):
     """
 
     def __call__(self, *args, **kwds):
+        def same(x, y):
+            if x is y:
+                return True
+            try:
+                return bool(np.array_equal(x, y))
+            except Exception:  # e.g. records holding arrays: not comparable, treat as a cache miss
+                return False
+
         if (
             hasattr(self, "lastArgs")
             and len(args) == len(self.lastArgs)
-            and (
-                all(x is y for x, y in zip(args, self.lastArgs))
-                or (np is not None and all(np.array_equal(x, y) for x, y in zip(args, self.lastArgs)))
-                or (np is None and all(x == y for x, y in zip(args, self.lastArgs)))
-            )
+            and all(same(x, y) for x, y in zip(args, self.lastArgs))
             and set(kwds.keys()) == set(self.lastKwds.keys())
-            and (
-                all(kwds[k] is self.lastKwds[k] for k in kwds)
-                or (np is not None and all(np.array_equal(kwds[k], self.lastKwds[k]) for k in kwds))
-                or (np is None and all(kwds[k] == self.lastKwds[k] for k in kwds))
-            )
+            and all(same(kwds[k], self.lastKwds[k]) for k in kwds)
         ):
             return self.lastReturn
         self.lastArgs = args
